@@ -119,6 +119,9 @@ type Event struct {
 	Cfg     *Cfg     `json:"cfg,omitempty"`
 	// States2: the client machine's active states when a call returned
 	States2 []string `json:"cstates,omitempty"`
+	// MAct / SAct: active states of the network machine (Is) and of the source (probe)
+	MAct []string `json:"mact,omitempty"`
+	SAct []string `json:"sact,omitempty"`
 	// Open: Client.Sync calls entered and not returned (probe)
 	Open int `json:"open,omitempty"`
 	// goroutine-independent wall time in us since world start (debug only)
